@@ -219,7 +219,7 @@ pub fn run(ctx: &mut RunCtx) {
     pb.w_compact = 3;
     pb.w_reopen = 1;
     let no_compact = ctx.excluding("compaction-or-close-inside-backup-window");
-    let n = ctx.tier.pick(1500, 600_000);
+    let n = ctx.tier.pick(30_000, 600_000);
     ctx.explore(
         "backup-restore",
         "generated history, then backup() of the live (or closed) database with generated bursts of commits / compactions / close+reopen at the start, between the page-file copy and the log copy, and at the end; the backup is restored to a new path and opened; its dump must equal one of the model states between backup start and end (so it contains everything committed before the start); non-trivial = a commit or compaction ran inside the backup window",
